@@ -24,7 +24,7 @@ RULE = ('fault classes {operand out of range (instruction immediates of every fo
 ASSUMPTIONS = ['duplicate label definitions are currently accepted by the assembler, so that clause of the property is vacuous and only checked if refused']
 
 BASE = ['START:', 'KR = 40', 'K1 = 12', 'addi x8, x8, K1', 'li x5, 0x12345', 'beqz x8, START', 'MID:', 'lw x9, 4(x8)', 'bytes 1 2 3 4', 'align 4',
-        'call END', 'dw MID', 'add x10, x10, x11', 'END:', 'ret']
+        'call END', 'dw MID', 'K3 = K1 + 1', 'add x10, x10, x11', 'K4 = K3 * 2 + K1', 'dh K4', 'END:', 'ret']          # (K3, K4: valid constants that build on K1)
 
 FAULTS = {
     'range': ['addi x1, x1, 5000', 'addi x1, x1, -2049', 'lw x1, x2, 2048', 'lw x1, 4096(x2)', 'sw x1, x2, -3000', 'lui x1, 0x100000', 'auipc x1, -524289',
@@ -37,14 +37,14 @@ FAULTS = {
     'undefined_label': ['beq x1, x2, nolabel', 'j nolabel', 'jal x1, nolabel', 'jal nolabel', 'call nolabel', 'tail nolabel', 'li x5, nolabel', 'dw nolabel',
                         'beqz x8, nolabel', 'bgt x1, x2, nolabel', 'c.j nolabel', 'c.beqz x8, nolabel', 'lui x5, %hi(nolabel)', 'addi x5, x5, %lo(nolabel)',
                         'li x5, %position(nolabel, 4)', 'auipc x5, %hi(%offset(nolabel))', 'pack <I nolabel'],
-    'undefined_constant': ['addi x1, x1, NOCONST', 'K2 = NOCONST + 1', 'db NOCONST', 'li x5, NOCONST * 2', 'lw x8, NOCONST(x8)', 'andi x8, x8, NOCONST',
+    'undefined_constant': ['addi x1, x1, NOCONST', 'K2 = NOCONST + 1', 'K1 = NOCONST + 1', 'K3 = NOCONST', 'K1 = K1 + NOCONST', 'db NOCONST', 'li x5, NOCONST * 2', 'lw x8, NOCONST(x8)', 'andi x8, x8, NOCONST',
                            'lui x8, NOCONST', 'c.li x8, NOCONST', 'dw %position(START, NOCONST)'],
-    'malformed_expression': ['addi x1, x1, 1 +', 'K2 = * 2', 'K2 = (1', 'K2 = 1)', 'K2 = 1 2', "K2 = 'ab'", "K2 = '\\'", 'li x1, 1 +', 'dw (1', 'lw x1, x2, (1',
+    'malformed_expression': ['addi x1, x1, 1 +', 'K2 = * 2', 'K1 = (1', 'K1 = 12 +', 'K2 = (1', 'K2 = 1)', 'K2 = 1 2', "K2 = 'ab'", "K2 = '\\'", 'li x1, 1 +', 'dw (1', 'lw x1, x2, (1',
                              'db 1 +* 2', 'K2 = 5 5', 'addi x8, x8, )', 'pack <I ((3)', 'sw x1, x2, 4 4', 'li x5, 0x', 'K2 = 0b12', 'dh 12ab', 'lui x5, %hi(', 'li x5, %hi((1)',
                              'j (', 'call (', 'tail (1', 'beqz x8, (', 'bgt x1, x2, (', 'jal (', 'bnez x8, )'],
     'expression_evaluation': ['K2 = 1 << -1', 'addi x1, x1, 1 << -1', 'li x5, 1 << (K1 - 20)', 'dw 1 >> -2', 'K2 = 7 // 0', 'db 7 % 0', 'lui x5, 1 << (K1 - 13)',
                               'K2 = K1 // (K1 - 12)', 'sw x1, x2, 4 % 0', 'pack <I 1 << -4'],
-    'non_integer': ['K2 = 1.5', 'K2 = 4 / 2', 'K2 = "s"', 'addi x1, x1, 1.5', 'dw 2.0', 'li x5, 1e3', 'db 3 / 1', 'K2 = None', 'lw x8, 0.0(x8)', 'dh [1]',
+    'non_integer': ['K2 = 1.5', 'K1 = 1.5', 'K3 = 0.5 + K1', 'K2 = 4 / 2', 'K2 = "s"', 'addi x1, x1, 1.5', 'dw 2.0', 'li x5, 1e3', 'db 3 / 1', 'K2 = None', 'lw x8, 0.0(x8)', 'dh [1]',
                     'fence rw, rw', 'fence 3, w', 'fence iorw, 1', 'fence 1.5, 1', 'amoadd.w x1, x2, x3, yes, 0', 'lr.w x1, x2, 0, aq'],
     # a constant has no position: a position-relative modifier in its definition (at any nesting depth) names nothing
     'position_relative_constant': ['K2 = %offset(START)', 'K2 = %hi(%offset(START))', 'K2 = %lo(%offset(K1))', 'K2 = %lo(%offset(sp))',
@@ -93,6 +93,11 @@ def plant_api(asm, acc, fault_class, fault, pos, depth, compress, root=None, bas
         acc['ctr']['plants_in_random_programs'] += 1
     acc['n'] += 1
     lines = BASE[:pos] + [fault] + BASE[pos:]
+    if fault.startswith('K1 = '):
+        # the faulty line *is* the definition of K1 (it takes the place of `K1 = 12`): everything that builds on K1 cannot be
+        # evaluated either, but the one faulty line is this one
+        pos = BASE.index('K1 = 12')
+        lines = BASE[:pos] + [fault] + BASE[pos + 1:]
     shift = 0
     if fault_class == 'twin_text':
         # the faulty line has the very same text as an earlier line that is fine: here only its position makes it a fault
